@@ -334,6 +334,12 @@ pub fn make_case(prop: &str, seed: u64) -> Case {
             case.settle_each = true;
             log_setup(&mut case, &mut rng);
         }
+        "C11" => {
+            case.knobs.state_fsync = rng.chance(0.5);
+            case.settle_each = false;
+            case.yield_prob = *rng.pick(&[0.2, 0.5, 1.0, 1.0]);
+            case.policy = rng.pick(&["random", "random", "pct", "eager_bg"]).to_string();
+        }
         "C12" => {
             case.knobs.segment_size = *rng.pick(&[400, 1024, 4096, 65536, 8 * 1024 * 1024]);
             case.knobs.messages_required_to_save = *rng.pick(&[1, 2, 3, 5, 10, 50, 1000]);
